@@ -14,7 +14,7 @@ git -C /repo worktree add -q --detach $w HEAD || exit 2
 timeout 900 /venv/bin/python $d/demo.py $w >/dev/null 2>&1; a=$?
 git -C $w apply $d/patch.diff; ap=$?
 timeout 900 /venv/bin/python $d/demo.py $w >/dev/null 2>&1; b=$?
-s=$(/venv/bin/python /verif/tools/run_suite.py $w | head -1)
+if [ -n "${SKIP_SUITE:-}" ]; then s="(skipped)"; else s=$(/venv/bin/python /verif/tools/run_suite.py $w | head -1); fi
 git -C /repo worktree remove --force $w
 echo "CONFIRM $d apply=$ap demo_pristine=$a demo_patched=$b suite: $s"
 $(dirname $0)/seedtest_iso.sh $d $tier
